@@ -24,7 +24,7 @@ theorem detectDivergence_spec {c : Client} {trace : List LightBlock} {now : Int}
         · cases hm
         · exact hw
 
-theorem seqLoop_spec (cfg : Config) (root : Hash) (now : Int) (new : LightBlock) :
+theorem seqLoop_spec (cfg : Config) (root : Hash → Prop) (now : Int) (new : LightBlock) :
     ∀ (fuel : Nat) (c : Client) (verified : LightBlock) (height : Int) (trace : List LightBlock)
       (c' : Client) (r : Except Err (List LightBlock)),
       c.cfg = cfg → Reach cfg root verified →
@@ -102,7 +102,7 @@ theorem seqLoop_spec (cfg : Config) (root : Hash) (now : Int) (new : LightBlock)
           · obtain ⟨rfl, rfl⟩ := Prod.mk.inj e
             exact ⟨hs1, fun tr h => by cases h⟩
 
-theorem skipLoop_reach (cfg : Config) (root : Hash) (now : Int) (src : Prov) (new : LightBlock) :
+theorem skipLoop_reach (cfg : Config) (root : Hash → Prop) (now : Int) (src : Prov) (new : LightBlock) :
     ∀ (fuel : Nat) (k : Calls) (verified : LightBlock) (tl : List LightBlock) (depth : Nat)
       (trace : List LightBlock) (k' : Calls) (r : Except Err (List LightBlock)),
       Reach cfg root verified →
@@ -146,7 +146,7 @@ theorem skipLoop_reach (cfg : Config) (root : Hash) (now : Int) (src : Prov) (ne
       · obtain ⟨_, rfl⟩ := Prod.mk.inj e; cases hr
 
 
-theorem vsap_spec (cfg : Config) (root : Hash) (now : Int) (trusted : LightBlock) :
+theorem vsap_spec (cfg : Config) (root : Hash → Prop) (now : Int) (trusted : LightBlock) :
     ∀ (fuel : Nat) (c : Client) (new : LightBlock) (c' : Client) (r : Except Err Unit),
       c.cfg = cfg → Reach cfg root trusted →
       verifySkippingAgainstPrimary now trusted fuel c new = (c', r) →
@@ -195,7 +195,7 @@ theorem vsap_spec (cfg : Config) (root : Hash) (now : Int) (trusted : LightBlock
       have := (h2.2 hr).1
       simp at this
 
-theorem backwards_spec (cfg : Config) (root : Hash) :
+theorem backwards_spec (cfg : Config) (root : Hash → Prop) :
     ∀ (fuel : Nat) (c : Client) (verified new : LightBlock) (c' : Client) (r : Except Err Unit),
       Reach cfg root verified →
       backwards fuel c verified new = (c', r) →
@@ -244,7 +244,7 @@ theorem backwards_spec (cfg : Config) (root : Hash) :
           exact ⟨hs1.trans h2.1, h2.2⟩
 
 
-theorem verifySequential_spec (cfg : Config) (root : Hash) {c : Client} {trusted new : LightBlock}
+theorem verifySequential_spec (cfg : Config) (root : Hash → Prop) {c : Client} {trusted new : LightBlock}
     {now : Int} {c' : Client} {r : Except Err Unit}
     (hcfg : c.cfg = cfg) (hreach : Reach cfg root trusted)
     (e : verifySequential c trusted new now = (c', r)) :
@@ -299,17 +299,17 @@ theorem mem_prune {b : LightBlock} {s : Store} {n : Nat} (h : b ∈ (s.prune n).
 
 /-- the trust invariant: everything in the trusted store, and the cached latest block, is
 reachable from the trust root -/
-def Inv (cfg : Config) (root : Hash) (c : Client) : Prop :=
+def Inv (cfg : Config) (root : Hash → Prop) (c : Client) : Prop :=
   c.cfg = cfg ∧ (∀ b ∈ c.store.blocks, Reach cfg root b) ∧ (∀ l, c.latest = some l → Reach cfg root l)
 
-theorem Inv.of_same {cfg : Config} {root : Hash} {c c' : Client} (h : Inv cfg root c)
+theorem Inv.of_same {cfg : Config} {root : Hash → Prop} {c c' : Client} (h : Inv cfg root c)
     (hs : SameTrust c c') : Inv cfg root c' := by
   obtain ⟨h1, h2, h3⟩ := h
   refine ⟨hs.1.trans h1, ?_, ?_⟩
   · rw [hs.2.1]; exact h2
   · rw [hs.2.2]; exact h3
 
-theorem updateTrusted_inv {cfg : Config} {root : Hash} {c : Client} {l : LightBlock}
+theorem updateTrusted_inv {cfg : Config} {root : Hash → Prop} {c : Client} {l : LightBlock}
     (h : Inv cfg root c) (hl : Reach cfg root l) : Inv cfg root (updateTrustedLightBlock c l) := by
   obtain ⟨h1, h2, h3⟩ := h
   unfold updateTrustedLightBlock
